@@ -27,7 +27,7 @@ def main(tier, seed, replay=None):
     for i in range(20 if tier == "quick" else 400):
         M, P = COMBOS[i % len(COMBOS)]
         cases.append(statsrun.gen_stats_case(rng, M, P, M + P + rng.randint(1, 8), scalar=("f32" if i % 5 == 0 else "f64"),
-                                             weights=rng.choice(["none", "pos", "unit", "zeros", "zeros"]), quant=(8 if i % 2 else None),
+                                             weights=rng.choice(["none", "pos", "unit", "zeros", "zeros", "const", "neg"]), quant=(8 if i % 2 else None),
                                              ctor=("new_parallel" if i % 3 == 0 else "new"), builder_made=(i % 4 == 1 and P <= M)))
     # fits that end UNSUCCESSFULLY on a well-determined problem with a model that never fails: tolerances that cannot be met
     # (NoImprovementPossible), no patience (LostPatience): "the fit failed => Err" must hold for every kind of failure
